@@ -31,7 +31,7 @@ RULE = (
     "(replica, op kind, fault kind, graph shape class); non-trivial = at least one reorder/duplicate fault fired and >=2 replicas"
 )
 STATE_MEASURE = "(layer, #nodes, tree|cyclic, canonical degree sequence, #dups) for abstract; (layer, multiset of frame kinds, #replicas) for frames"
-PROBES = ["origin_checked", "route_replaced_by_shorter", "dup_link_delivered", "query_on_partial_graph", "disconnected_pair_reported", "builtin_graph_replayed", "frames_convergence_checked", "two_hop_oracle_checked", "frame_of_a_derived_orbit"]
+PROBES = ["origin_checked", "route_replaced_by_shorter", "dup_link_delivered", "query_on_partial_graph", "disconnected_pair_reported", "builtin_graph_replayed", "frames_convergence_checked", "two_hop_oracle_checked", "frame_of_a_derived_orbit", "user_orientation_followed_both_ways", "local_axes_checked"]
 REAL_VS_STUB = "real: beyond.utils.node.Node, frames/center/orient/stations registries, propagators; stub: none (EOP = zeros by policy 'pass'); model: BFS on explicit adjacency, two-hop composition through pristine nodes"
 ASSUMPTIONS = ["tree space on 8 nodes is sampled, not enumerated (thorough tier additionally sweeps all labelled trees on <=5 nodes with all orders)", "numpy/sgp4 are trusted"]
 SAMPLED_ONLY = []
@@ -130,6 +130,11 @@ def _gen_frames(rng, tier="quick"):
     used_body = set()
     for j in range(nmsg):
         kind = rng.choice(["station", "station", "orbframe", "orbframe", "body", "frame"])
+        if rng.random() < 0.12:
+            # a user-registered orientation (a body-fixed frame with a tilted pole): rotation and rate given for the link towards its parent
+            ax = [rng.uniform(-1, 1), rng.uniform(-1, 1), rng.uniform(0.2, 1)]
+            msgs.append({"op": "orientation", "name": f"UOr{j}", "parent": rng.choice(["EME2000", "TOD", "MOD", "ITRF"]), "axis": ax, "angle": rng.uniform(0, 6.28), "rate": [rng.uniform(-1e-4, 1e-4), rng.uniform(-1e-4, 1e-4), rng.uniform(-1e-4, 1e-4)]})
+            continue
         if kind == "body":
             name = rng.choice(["Moon", "Sun"])
             if name in used_body:
@@ -155,6 +160,8 @@ def _gen_frames(rng, tier="quick"):
             }
             if parent not in _PARENTS:
                 msg["deps"] = [parent]
+            if rng.random() < 0.15:
+                msg["equatorial"] = True  # the station frame keeps the axes of EME2000 (rarely used option)
             msgs.append(msg)
         else:
             msg = {
@@ -193,6 +200,8 @@ def _gen_frames(rng, tier="quick"):
             if ufr and msg["orient"] and "cart" not in msg and msg["frame"] in _INERTIAL and rng.random() < 0.5:
                 msg["parent"] = rng.choice(ufr)
                 msg["deps"] = list(msg.get("deps", [])) + [msg["parent"]]
+            if msg["orient"] and "cart" not in msg and msg["frame"] in _INERTIAL and not msg.get("derive") and rng.random() < 0.2:
+                msg["frame"] = rng.choice(_PARENTS)  # a reference object given in an Earth-fixed frame (a precise ephemeris in ITRF) with QSW / TNW axes
             if msg["src"] in ("static", "ephem") and "cart" not in msg and msg["frame"] in _INERTIAL and rng.random() < 0.3:
                 msg["ref_form"] = rng.choice(["keplerian", "spherical", "keplerian_mean"])
             if msg["orient"] and rng.random() < 0.15:
@@ -561,7 +570,8 @@ def _register(node, msg, kn, refs=None, lookup=None):
     if msg["op"] == "station":
         st = node.mod("beyond.frames.stations")
         parent = node.frames.get_frame(msg["parent"])
-        return st.create_station(msg["name"], (msg["lat"], msg["lon"], msg["alt"]), parent_frame=parent)
+        kw_ = {"equatorial": True} if msg.get("equatorial") else {}
+        return st.create_station(msg["name"], (msg["lat"], msg["lon"], msg["alt"]), parent_frame=parent, **kw_)
     if msg["op"] == "body":
         ss = node.mod("beyond.env.solarsystem")
         return ss.get_frame(msg["name"])
@@ -569,6 +579,19 @@ def _register(node, msg, kn, refs=None, lookup=None):
         orient = node.mod("beyond.frames.orient")
         center = node.mod("beyond.frames.center")
         return node.frames.Frame(msg["name"], getattr(orient, msg["orient"]), center.Earth)
+    if msg["op"] == "orientation":
+        orient = node.mod("beyond.frames.orient")
+        center = node.mod("beyond.frames.center")
+        a = np.array(msg["axis"], dtype=float)
+        a = a / np.linalg.norm(a)
+        K = np.array([[0, -a[2], a[1]], [a[2], 0, -a[0]], [-a[1], a[0], 0]])
+        R = np.eye(3) + np.sin(msg["angle"]) * K + (1 - np.cos(msg["angle"])) * (K @ K)
+        rate = np.array(msg["rate"], dtype=float)
+        new = orient.Orientation(msg["name"])
+        parent = getattr(orient, msg["parent"])
+        setattr(orient.Orientation, f"{msg['name']}_to_{parent.name}", lambda self_, date, _R=R, _w=rate: (_R.copy(), _w.copy()))
+        parent + new
+        return node.frames.Frame(msg["name"], new, center.Earth)
     if msg["op"] == "orbframe":
         ref = _ref_object(node, msg, kn, refs, lookup)
         if refs is not None:
@@ -623,14 +646,14 @@ def _run_frames(plan, ctx):
 
     for o in plan["ops"]:
         r = o["rep"] % nrep
-        if o["op"] in ("station", "orbframe", "body", "frame"):
+        if o["op"] in ("station", "orbframe", "body", "frame", "orientation"):
             if o["name"] in registered[r]:
                 continue  # only *new* names are covered by the statement
             if any(d not in registered[r] for d in o.get("deps", [])):
                 continue  # (a minimised plan may have lost the message this one depends on)
             existing = _BUILTIN + registered[r]
             # snapshot a sample of conversions between frames that already exist
-            pairs = [(a, b) for a in existing[-4:] + existing[:3] for b in existing[-4:] + existing[:3] if a != b][:20]
+            pairs = [("EME2000", "ITRF"), ("TIRF", "G50"), ("PEF", "MOD")] + [(a, b) for a in existing[-4:] + existing[:3] for b in existing[-4:] + existing[:3] if a != b][:20]
             for a, b in pairs:
                 conv(r, a, b, "pre-registration snapshot")
             with nodes[r]:
@@ -648,6 +671,47 @@ def _run_frames(plan, ctx):
             ctx.ev(f"rep{r}", "register", o["op"], o["name"])
             for a, b in pairs:
                 conv(r, a, b, f"after registering {o['name']}")
+            if o["op"] == "orientation":
+                # a link carrying a rotation and a rate is followed both ways: there and back is the identity
+                ctx.checks += 1
+                ctx.probe("user_orientation_followed_both_ways")
+                with nodes[r]:
+                    date = _mk_date(nodes[r], kn["date_mjd"])
+                    sv0 = nodes[r].StateVector(kn["probe"], date, "cartesian", o["parent"])
+                    try:
+                        back = np.array(sv0.copy(frame=o["name"]).copy(frame=o["parent"]), dtype=float)
+                        there = np.array(nodes[r].StateVector(kn["probe"], date, "cartesian", o["name"]).copy(frame=o["parent"]).copy(frame=o["name"]), dtype=float)
+                        err = None
+                    except Exception as e:  # noqa
+                        err = e
+                if err is not None:
+                    ctx.violate("valid-chain", {"kind": "connected_conversion_failed", "layer": "frames"}, f"rep {r}: converting between {o['parent']} and the user-registered orientation {o['name']} raised {type(err).__name__}: {err}")
+                else:
+                    p0 = np.array(kn["probe"], dtype=float)
+                    for got_, what_ in ((back, f"{o['parent']} -> {o['name']} -> {o['parent']}"), (there, f"{o['name']} -> {o['parent']} -> {o['name']}")):
+                        if np.linalg.norm(got_[:3] - p0[:3]) > 1e-6 + 1e-12 * np.linalg.norm(p0[:3]) or np.linalg.norm(got_[3:] - p0[3:]) > 1e-9 + 1e-12 * np.linalg.norm(p0[3:]) + 1e-12 * np.linalg.norm(p0[:3]):
+                            ctx.violate("valid-chain", {"kind": "there_and_back_not_identity", "layer": "frames"}, f"rep {r}: {what_} moves the probe by {np.linalg.norm(got_[:3] - p0[:3]):.3e} m / {np.linalg.norm(got_[3:] - p0[3:]):.3e} m/s (link with a rotation and a rate, followed both ways)")
+                            break
+            if o["op"] == "orbframe" and o.get("orient") and not o.get("derive"):
+                # QSW / TNW: the third axis is the direction of the angular momentum of the object about the centre of the parent
+                # frame (own computation from the object's position and velocity expressed in the parent frame)
+                with nodes[r]:
+                    ref = _ref_object(nodes[r], o, kn)
+                    date = _mk_date(nodes[r], kn["date_mjd"])
+                    st = ref.propagate(date) if hasattr(ref, "propagate") else ref
+                    try:
+                        rv = np.array(st.copy(form="cartesian", frame=o["parent"]), dtype=float)
+                        wax = np.cross(rv[:3], rv[3:])
+                        wax = wax / np.linalg.norm(wax)
+                        pr = np.concatenate([rv[:3] + 1000.0 * wax, rv[3:]])
+                        inw = np.array(nodes[r].StateVector(pr, date, "cartesian", o["parent"]).copy(frame=o["name"]), dtype=float)
+                        errw = None
+                    except Exception as e:  # noqa
+                        errw = e
+                ctx.checks += 1
+                ctx.probe("local_axes_checked")
+                if errw is None and np.linalg.norm(inw[:3] - np.array([0.0, 0.0, 1000.0])) > 1e-3:
+                    ctx.violate("valid-chain", {"kind": "local_axes_not_those_of_the_object", "layer": "frames", "ref_frame_kind": "builtin" if o["frame"] in _BUILTIN else "registered"}, f"rep {r}: frame {o['name']} ({o['orient']}, reference given in {o['frame']}, parent {o['parent']}): a point 1000 m along the angular momentum of the object is seen at {inw[:3]} instead of (0, 0, 1000)")
             if o["op"] == "orbframe":
                 # the frame attached to an object has that object at its origin: the link goes to the centre
                 # of the frame the object is expressed in, whatever was registered before
